@@ -883,6 +883,28 @@ class CallSource(SourceBase):
 
             return functools.partial(coro2, "extra")
 
+        if fl in ("iterobj", "aiterobj"):
+            outer = self
+
+            class CallableCollection:
+                """a callable object that ALSO is iterable (a queue with ``__call__`` = "get next"): iter(v, sentinel)
+                only asks for callable"""
+
+                if fl == "iterobj":
+                    def __iter__(self_inner):  # noqa: N805
+                        return iter(())
+
+                    def __call__(self_inner):  # noqa: N805
+                        return outer._produce()
+                else:
+                    def __aiter__(self_inner):  # noqa: N805
+                        raise AssertionError("iter(callable, sentinel) must call, not iterate")
+
+                    def __call__(self_inner):  # noqa: N805
+                        return coro()
+
+            return CallableCollection()
+
         class CallObj:
             def __call__(self_inner):  # noqa: N805
                 return coro()
